@@ -872,3 +872,8 @@ CORPUS += [
     V("C18", "cvrp-demand-not-normalised", _CG, '"demand": demand / self.capacity,', '"demand": demand,', "C18.g"),
     V("C18", "eq-cvrp-demand-shift-reordered", _CG, "demand = (demand.int() + 1).float()", "demand = (1 + demand.int()).float()", None),
 ]
+
+CORPUS += [
+    V("C20", "warmup-wraps-with-inner-baseline-at-alpha-zero", BLF, "        if self.alpha > 0:\n            return self.baseline.wrap_dataset", "        if self.alpha >= 0:\n            return self.baseline.wrap_dataset", "C20.d"),
+    V("C20", "eq-warmup-wrap-guard-mirrored", BLF, "        if self.alpha > 0:\n            return self.baseline.wrap_dataset", "        if 0 < self.alpha:\n            return self.baseline.wrap_dataset", None),
+]
